@@ -13,7 +13,7 @@ echo "{" > $OUT
 first=1
 for c in $CH; do
   t0=$(date +%s)
-  o=$(timeout 420 ./check $c --seed ${SEED:-1} 2>/dev/null)
+  o=$(timeout 900 ./check $c --seed ${SEED:-1} 2>/dev/null)
   rc=$?
   nv=$(echo "$o" | grep -c '^VIOLATION')
   sigs=$(ls replays/$c-*.json 2>/dev/null | head -3 | xargs -r jq -r .signature 2>/dev/null | sort -u | tr '\n' ';')
